@@ -65,7 +65,7 @@ def mono_norm(items):
     for a, e in d.items():
         if e == 0:
             continue
-        if a[0] in ("step", "stepge"):
+        if a[0] in ("step", "stepge", "ind"):
             if e < 0:
                 raise Unsupported("negative power of an indicator")
             e = Fr(1)
@@ -244,6 +244,8 @@ def show_atom(a):
         return f"{'' if k == 'paren' else k}({Poly.thaw(a[1])!r})"
     if k == "fni":
         return f"{a[1]}<{abs(hash(a[2])) % 10000}>"
+    if k == "ind":
+        return f"[{Poly.thaw(a[2])!r} {a[1]} 0]"
     if k == "fn":
         return f"{a[1]}({', '.join(repr(Poly.thaw(x)) if isinstance(x, tuple) else str(x) for x in a[2])})"
     return repr(a)
@@ -271,6 +273,12 @@ def atom_indices(a):
         for x, _ in a[2]:
             s |= atom_indices(x)
         r = frozenset(s - {i for i, _ in a[1]})
+    elif k == "ind":
+        s = set()
+        for m, _ in a[2]:
+            for x, _e in m:
+                s |= atom_indices(x)
+        r = frozenset(s)
     elif k in ("paren", "abs", "sign", "exp", "step", "stepge"):
         s = set()
         for m, _ in a[1]:
@@ -417,6 +425,8 @@ def subst_atom(a, mp):
         return mk_exp(subst(Poly.thaw(a[1]), mp))
     if k in ("step", "stepge"):
         return mk_step(subst(Poly.thaw(a[1]), mp), strict=(k == "step"))
+    if k == "ind":
+        return mk_ind(subst(Poly.thaw(a[2]), mp), a[1])
     if k == "fn":
         bound = set(a[3]) if len(a) > 3 else set()
         mp2 = {x: y for x, y in mp.items() if x not in bound}
@@ -468,7 +478,7 @@ def mk_pow(p, r):
                 if a[0] == "const":
                     res = res * _rat_pow(a[1], e * r) if (e * r).denominator == 1 else res * Poly.atom(a, e * r)
                 else:
-                    res = res * Poly({((a, e * r),): Fr(1)}) if a[0] not in ("delta", "offdiag", "lt", "step", "stepge") else (res * Poly.atom(a) if r > 0 else _unsup("negative power of an indicator"))
+                    res = res * Poly({((a, e * r),): Fr(1)}) if a[0] not in ("delta", "offdiag", "lt", "step", "stepge", "ind") else (res * Poly.atom(a) if r > 0 else _unsup("negative power of an indicator"))
             else:
                 rest.append((a, e))
         if integer:
@@ -602,6 +612,16 @@ def _sign_normal(p):
     return coef, pulled, q
 
 
+def mk_ind(p, op=">="):
+    """indicator of p >= 0 / p > 0 for a data-dependent quantity (a genuine branch of the computed function)"""
+    if p.is_const():
+        v = p.const_value()
+        return Poly.const(1 if (v >= 0 if op == ">=" else v > 0) else 0)
+    if poly_positive(p):
+        return Poly.const(1)
+    return Poly.atom(("ind", op, p.frozen()))
+
+
 def mk_exp(p):
     if p.is_zero():
         return Poly.const(1)
@@ -699,6 +719,10 @@ def _level(atom):
         return _level(atom[1])
     if k in ("paren", "abs", "sign", "exp", "step", "stepge"):
         for m, _ in atom[1]:
+            for x, _e in m:
+                lv = max(lv, _level(x))
+    if k == "ind":
+        for m, _ in atom[2]:
             for x, _e in m:
                 lv = max(lv, _level(x))
     if k == "fn":
@@ -855,7 +879,7 @@ def diff_atom(a, tname, target):
         for i, t in zip(a[2], target):
             out = out * mk_delta(i, t)
         return out
-    if k in ("sym", "const", "delta", "offdiag", "lt", "sign", "step", "stepge"):
+    if k in ("sym", "const", "delta", "offdiag", "lt", "sign", "step", "stepge", "ind"):
         return Poly()
     if k == "exp":
         return Poly.atom(a) * diff(Poly.thaw(a[1]), tname, target)
@@ -1020,6 +1044,12 @@ def _inst_atom(a, sizes, env):
         return mk_abs(instantiate(Poly.thaw(a[1]), sizes, env))
     if k == "sign":
         return mk_sign(instantiate(Poly.thaw(a[1]), sizes, env))
+    if k == "ind":
+        return mk_ind(instantiate(Poly.thaw(a[2]), sizes, env), a[1])
+    if k == "exp":
+        return mk_exp(instantiate(Poly.thaw(a[1]), sizes, env))
+    if k in ("step", "stepge"):
+        return mk_step(instantiate(Poly.thaw(a[1]), sizes, env), strict=(k == "step"))
     if k == "fn":
         bound = list(a[3]) if len(a) > 3 else []
         e2 = {x: y for x, y in env.items() if x not in bound}
@@ -1064,6 +1094,8 @@ def _replace_atom(a, mapping):
         return mk_abs(replace_atoms(Poly.thaw(a[1]), mapping))
     if k == "sign":
         return mk_sign(replace_atoms(Poly.thaw(a[1]), mapping))
+    if k == "ind":
+        return mk_ind(replace_atoms(Poly.thaw(a[2]), mapping), a[1])
     if k == "fni":
         args = tuple(x if isinstance(x, str) else tuple(replace_atoms(Poly.thaw(fz), mapping).frozen() for fz in x) for x in a[2])
         return Poly.atom(("fni", a[1], args, a[3]))
@@ -1134,6 +1166,8 @@ def _replace_tensor_atom(a, name, fn):
         return mk_exp(replace_tensor(Poly.thaw(a[1]), name, fn))
     if k in ("step", "stepge"):
         return mk_step(replace_tensor(Poly.thaw(a[1]), name, fn), strict=(k == "step"))
+    if k == "ind":
+        return mk_ind(replace_tensor(Poly.thaw(a[2]), name, fn), a[1])
     if k == "fn":
         args = tuple(x if isinstance(x, str) else replace_tensor(Poly.thaw(x), name, fn).frozen() for x in a[2])
         if a[1] == "emd2" and len(args) >= 2 and args[0] == args[1]:
